@@ -103,6 +103,79 @@ def commit_point_call(ctx: Ctx, f: FunctionInfo) -> Node:
 _VAL_EXTRA: Dict[str, Tuple[List[Node], List[Node]]] = {}
 
 
+def _as_attribute(ctx: Ctx, f: FunctionInfo, e: ast.AST, at: int, depth: int = 0) -> ast.AST:
+    """`found` -> `current.last_updated_ms` when the local has one reaching definition `found = current.last_updated_ms`
+    (also as an element of `expected, found = base.f, current.f`)."""
+    if not isinstance(e, ast.Name) or depth > 3:
+        return e
+    g = ctx.cfg(f)
+    defs = ctx.rd(f).reaching(at, e.id)
+    if len(defs) != 1:
+        return e
+    d = next(iter(defs))
+    dn = g.nodes[d]
+    if d == g.entry or dn.kind != "stmt" or not isinstance(dn.ast, ast.Assign) or len(dn.ast.targets) != 1:
+        return e
+    t, v = dn.ast.targets[0], dn.ast.value
+    if isinstance(t, ast.Name):
+        return _as_attribute(ctx, f, v, d, depth + 1)
+    if isinstance(t, (ast.Tuple, ast.List)) and isinstance(v, (ast.Tuple, ast.List)) and len(t.elts) == len(v.elts):
+        for te, ve in zip(t.elts, v.elts):
+            if isinstance(te, ast.Name) and te.id == e.id:
+                return _as_attribute(ctx, f, ve, d, depth + 1)
+    return e
+
+
+def carriers(ctx: Ctx, f: FunctionInfo, cur: str) -> Set[str]:
+    """Local names that can only hold the validated metadata object (or None): `cur` itself, a plain copy of a carrier, and
+    the target that receives a carrier from the return value of a helper analysed in place (`info, current = self._validate(..)`
+    with `return info, current` / `return None, None` inside)."""
+    g = ctx.cfg(f)
+    out = {cur}
+
+    def carried(e: Optional[ast.AST]) -> bool:
+        return (isinstance(e, ast.Name) and e.id in out) or (isinstance(e, ast.Constant) and e.value is None)
+
+    def value_at(e: ast.AST, i: Optional[int]) -> bool:
+        if isinstance(e, ast.Call) and id(e) in g.inline_returns:
+            rets = g.inline_returns[id(e)]
+            if not rets:
+                return False
+            for rv, _n in rets:
+                if i is None:
+                    if not carried(rv):
+                        return False
+                elif not (isinstance(rv, ast.Tuple) and i < len(rv.elts) and carried(rv.elts[i])):
+                    return False
+            return any((rv if i is None else rv.elts[i]) is not None and isinstance((rv if i is None else rv.elts[i]), ast.Name)  # type: ignore[union-attr]
+                       for rv, _n in rets)
+        if i is None:
+            return isinstance(e, ast.Name) and e.id in out
+        return isinstance(e, ast.Tuple) and i < len(e.elts) and isinstance(e.elts[i], ast.Name) and e.elts[i].id in out  # type: ignore[attr-defined]
+
+    changed = True
+    while changed:
+        changed = False
+        defs: Dict[str, List[bool]] = {}
+        for n in g.nodes:
+            a = n.ast
+            if n.kind != "stmt" or not isinstance(a, ast.Assign) or len(a.targets) != 1:
+                continue
+            t = a.targets[0]
+            if isinstance(t, ast.Name):
+                defs.setdefault(t.id, []).append(value_at(a.value, None) or (isinstance(a.value, ast.Constant) and a.value.value is None))
+            elif isinstance(t, (ast.Tuple, ast.List)):
+                for i, te in enumerate(t.elts):
+                    if isinstance(te, ast.Name):
+                        defs.setdefault(te.id, []).append(value_at(a.value, i))
+        for nm, oks in defs.items():
+            if nm not in out and oks and all(oks) and not any(p_.name == nm for p_ in f.params):
+                # every definition carries the validated object; one of them must be more than `= None`
+                out.add(nm)
+                changed = True
+    return out
+
+
 def validation(ctx: Ctx, f: FunctionInfo) -> Tuple[Node, str, str, Dict[str, Node]]:
     """(validation read call, name of the validated variable, name of the base parameter, {field: branch node})."""
     g = ctx.cfg(f)
@@ -119,7 +192,7 @@ def validation(ctx: Ctx, f: FunctionInfo) -> Tuple[Node, str, str, Dict[str, Nod
             continue
         if not isinstance(b.ast.ops[0], ast.NotEq):
             continue
-        l, r = b.ast.left, b.ast.comparators[0]
+        l, r = _as_attribute(ctx, f, b.ast.left, b.id), _as_attribute(ctx, f, b.ast.comparators[0], b.id)
         if not (isinstance(l, ast.Attribute) and isinstance(r, ast.Attribute) and l.attr == r.attr):
             continue
         ln, rn = dotted(l.value), dotted(r.value)
@@ -215,12 +288,13 @@ def r1(ctx: Ctx) -> None:
     if newp is None:
         raise AnalysisError("MetadataManager.commit has no new-metadata parameter")
     rd = ctx.rd(f)
+    curs = carriers(ctx, f, cur)
     cands: List[Tuple[str, Node, bool]] = []
     good_fields = []
     # a stamp assignment on the NO-TABLE side of the existence guard needs no advance (nothing to advance past)
     guard_false_reach: Set[int] = set()
     for b in g.nodes:
-        if b.kind == "branch" and isinstance(b.ast, ast.Name) and b.ast.id == cur:
+        if b.kind == "branch" and isinstance(b.ast, ast.Name) and b.ast.id in curs:
             fl, tr = edge_target(g, b, "false"), edge_target(g, b, "true")
             if fl is not None:
                 fr_ = reachable_from(g, fl, NORMAL)
@@ -236,7 +310,7 @@ def r1(ctx: Ctx) -> None:
             if d == g.entry or not isinstance(n.ast, ast.Assign):
                 ok_all = False
                 continue
-            adv = _strictly_advances(n.ast.value, {cur, base}, fld, ctx, f, n.id)
+            adv = _strictly_advances(n.ast.value, curs | {base}, fld, ctx, f, n.id)
             cands.append((fld, n, adv))
             if not adv and d not in guard_false_reach:
                 ok_all = False
